@@ -173,6 +173,12 @@ def c10_eps(r, *, t):
     return 0.9 + 0.1 * np.cos(3.0 * t + r[0])
 
 
+def o_solve_plain(dev, opts, A, cur):
+    import tdgl
+
+    return tdgl.solve(dev, opts, applied_vector_potential=A, terminal_currents=cur)
+
+
 def solver_level(ctx, stop_first=False):
     """"no step ever runs with stale or partially updated operators": inside real runs, at every evaluation of the
     psi update, the covariant operators in use equal operators built from scratch for the latest vector potential
@@ -194,6 +200,10 @@ def solver_level(ctx, stop_first=False):
         # has been evaluated), the user answers "continue": the same step is run again, and everything after it
         dict(name="td-step+interrupted-and-resumed", dev="bar", td="stepped", eps=True, interrupt_at=6, cur={"source": 2.0, "drain": -2.0}, o=dict(pause_on_interrupt=True, solve_time=0.06)),
         dict(name="td+interrupted-and-resumed", dev="bar", td=True, eps=True, interrupt_at=4, cur={"source": 2.0, "drain": -2.0}, o=dict(pause_on_interrupt=True, solve_time=0.05)),
+        # a screened run that does not start from zero induced potential: continued from a seed, and the SECOND solve() of one
+        # solver object (the operators a run starts with are those of ITS initial potentials)
+        dict(name="screening+seeded", dev="ring", td=False, seeded=True, o=dict(include_screening=True, screening_tolerance=1e-3, solve_time=0.03), lam=0.6),
+        dict(name="screening+second-solve", dev="ring", td=False, twice=True, o=dict(include_screening=True, screening_tolerance=1e-3, solve_time=0.03), lam=0.6),
         dict(name="td-slow-ramp-small-steps", dev="bar", td="slow", cur={"source": 2.0, "drain": -2.0}, o=dict(dt_init=1e-4, solve_time=4e-3)),
         dict(name="td-slow-ramp+gauge-offset", dev="bar", td="slow", offset=(30.0, -20.0), cur={"source": 2.0, "drain": -2.0}, o=dict(dt_init=1e-3, solve_time=2e-2)),
     ]
@@ -256,11 +266,20 @@ def solver_level(ctx, stop_first=False):
                 raise KeyboardInterrupt()
             return o_eps(self, time)
 
+        seed_ = o_solve_plain(dev, opts, A, cfg.get("cur")) if cfg.get("seeded") else None  # (computed before the hooks go in)
         TDGLSolver.update, TDGLSolver.update_applied_vector_potential, TDGLSolver.get_induced_vector_potential, TDGLSolver.adaptive_euler_step = upd, app, ind, stp
         TDGLSolver.update_epsilon = eps_hook
         builtins.input = lambda *a, **k: "y"
         try:
-            tdgl.solve(dev, opts, applied_vector_potential=A, terminal_currents=cfg.get("cur"), **(dict(disorder_epsilon=c10_eps) if cfg.get("eps") else {}))
+            if cfg.get("twice"):
+                sv_ = TDGLSolver(device=dev, options=opts, applied_vector_potential=A, terminal_currents=cfg.get("cur"))
+                TDGLSolver.update, TDGLSolver.update_applied_vector_potential, TDGLSolver.get_induced_vector_potential, TDGLSolver.adaptive_euler_step = o_upd, o_app, o_ind, o_step
+                sv_.solve()  # the first run, unobserved
+                TDGLSolver.update, TDGLSolver.update_applied_vector_potential, TDGLSolver.get_induced_vector_potential, TDGLSolver.adaptive_euler_step = upd, app, ind, stp
+                log["applied"] = np.array(sv_.current_A_applied, dtype=float)
+                sv_.solve()
+            else:
+                tdgl.solve(dev, opts, applied_vector_potential=A, terminal_currents=cfg.get("cur"), seed_solution=seed_, **(dict(disorder_epsilon=c10_eps) if cfg.get("eps") else {}))
         finally:
             TDGLSolver.update, TDGLSolver.update_applied_vector_potential, TDGLSolver.get_induced_vector_potential, TDGLSolver.adaptive_euler_step = o_upd, o_app, o_ind, o_step
             TDGLSolver.update_epsilon, builtins.input = o_eps, o_input
